@@ -3,12 +3,13 @@ package main
 import (
 	"fmt"
 	"go/ast"
+	"go/token"
 	"go/types"
 )
 
 func init() {
 	register("C16",
-		"C16 (wiring of invalidate → requeue → start, structural): (a) on every path of the import completion that publishes new index files, invalidateConverters is called with the *updated* mask — the fourth result of builder.FromPcap, followed through the job's locals by object identity — and inside it the result of every converter's InvalidateChangedStreams is OR-ed into that converter's streamsToConvert entry; (b) queueing on match/attach: the tagging completion ORs the tag's new Matches into streamsToConvert of every attached converter, attachConverterToTag ORs the tag's Matches, adding a mark sets the stream's bit for every attached converter (each followed by the trigger: C09-c); (c) detachConverterFromTag removes the converter from tag.converters and subtracts the tag's streams from the queue; (d) the cache keeps the latest record per stream at load (C15 rule) and an invalidation should be durable (C15-d: known finding); (e) the converter job looks a stream up newest index first (C10-c rule), so it converts the stream's current data. Freshness of output under a race between a running converter job and an import is NOT decided.",
+		"C16 (wiring of invalidate → requeue → start, structural): (a) on every path of the import completion that publishes new index files, invalidateConverters is called with a mask into which both the *updated* and the *reset* result of builder.FromPcap flow (the streams whose payload changed: extended, or rebuilt because earlier packets arrived), followed through the job's locals — and inside it the result of every converter's InvalidateChangedStreams is OR-ed into that converter's streamsToConvert entry; (b) queueing on match/attach: the tagging completion ORs the tag's new Matches into streamsToConvert of every attached converter, attachConverterToTag ORs the tag's Matches, adding a mark sets the stream's bit for every attached converter (each followed by the trigger: C09-c); (c) detachConverterFromTag removes the converter from tag.converters and subtracts the tag's streams from the queue; (d) the cache keeps the latest record per stream at load (C15 rule) and an invalidation should be durable (C15-d: known finding); (e) the converter job looks a stream up newest index first (C10-c rule), so it converts the stream's current data. Freshness of output under a race between a running converter job and an import is NOT decided.",
 		ruleC16, ruleC15Tail, ruleC15IndexFile, ruleC16Newest)
 }
 
@@ -77,7 +78,7 @@ func ruleC16(p *Prog, r *Res) {
 	if jf := p.Fn("manager.Manager.importPcapJob"); jf != nil {
 		info := jf.Pkg.TypesInfo
 		// 4th result of FromPcap
-		var updatedObj types.Object
+		var updatedObj, resetObj types.Object
 		inspectShallow(jf.Body(), func(x ast.Node) bool {
 			if as, ok := x.(*ast.AssignStmt); ok && len(as.Rhs) == 1 {
 				if c, ok := as.Rhs[0].(*ast.CallExpr); ok && p.Callee(jf.Pkg, c) == fromPcap && len(as.Lhs) >= 4 {
@@ -90,6 +91,33 @@ func ruleC16(p *Prog, r *Res) {
 						}
 					}
 					updatedObj = identObj(info, as.Lhs[idx])
+					for i := 0; i < sig.Results().Len(); i++ {
+						if sig.Results().At(i).Name() == "resetStreams" && i < len(as.Lhs) {
+							resetObj = identObj(info, as.Lhs[i])
+						}
+					}
+					// unnamed results: the position of the reset mask is read off FromPcap's successful return (&resetStreams)
+					if resetObj == nil {
+						if bf := p.FnOfObj(fromPcap); bf != nil && bf.Body() != nil {
+							inspectShallow(bf.Body(), func(y ast.Node) bool {
+								ret, ok := y.(*ast.ReturnStmt)
+								if !ok || len(ret.Results) != len(as.Lhs) {
+									return true
+								}
+								for i, e := range ret.Results {
+									if ue, ok := ast.Unparen(e).(*ast.UnaryExpr); ok && ue.Op == token.AND {
+										if id, ok := ast.Unparen(ue.X).(*ast.Ident); ok && id.Name == "resetStreams" {
+											resetObj = identObj(info, as.Lhs[i])
+										}
+									}
+								}
+								return true
+							})
+						}
+						if resetObj == nil {
+							p.anchorFail("reset-streams result of builder.FromPcap (a return of &resetStreams)")
+						}
+					}
 				}
 			}
 			return true
@@ -106,15 +134,58 @@ func ruleC16(p *Prog, r *Res) {
 				return ok && len(as.Lhs) == 1 && isFieldOf(cinfo, as.Lhs[0], idxFld)
 			})
 			r.Floor(ruleA+" publish sites", 1, len(publishes))
+			// which of FromPcap's masks flow into a value: the mask itself, a Copy()/dereference of it, masks OR-ed into it
+			flowsInto := func(arg ast.Expr) map[types.Object]bool {
+				out := map[types.Object]bool{}
+				var fromExpr func(e ast.Expr)
+				fromExpr = func(e ast.Expr) {
+					ast.Inspect(e, func(y ast.Node) bool {
+						if id, ok := y.(*ast.Ident); ok {
+							if o := cinfo.Uses[id]; o != nil && (o == updatedObj || o == resetObj) {
+								out[o] = true
+							}
+						}
+						return true
+					})
+				}
+				fromExpr(arg)
+				root := rootIdentOf(arg)
+				if root == nil {
+					return out
+				}
+				ao := cinfo.Uses[root]
+				inspectShallow(comp.Body(), func(y ast.Node) bool {
+					switch st := y.(type) {
+					case *ast.AssignStmt:
+						for i, l := range st.Lhs {
+							if identObj(cinfo, l) == ao && i < len(st.Rhs) && len(st.Lhs) == len(st.Rhs) {
+								fromExpr(st.Rhs[i])
+							}
+						}
+					case *ast.CallExpr:
+						if se, ok := ast.Unparen(st.Fun).(*ast.SelectorExpr); ok && se.Sel.Name == "Or" && identObj(cinfo, se.X) == ao && st.Pos() < arg.Pos() {
+							for _, a := range st.Args {
+								fromExpr(a)
+							}
+						}
+					}
+					return true
+				})
+				return out
+			}
 			isInval := func(n ast.Node) bool {
 				return fl.hasCall(n, func(c *ast.CallExpr) bool {
-					return p.Callee(comp.Pkg, c) == invalConv && len(c.Args) == 1 && sameObj(cinfo, c.Args[0], updatedObj)
+					if p.Callee(comp.Pkg, c) != invalConv || len(c.Args) != 1 {
+						return false
+					}
+					fi := flowsInto(c.Args[0])
+					return fi[updatedObj] && (resetObj == nil || fi[resetObj])
 				})
 			}
 			for _, pt := range publishes {
 				res := fl.ExitAvoiding([]Pt{After(pt)}, isInval)
-				r.Check(!res.Found, ruleA, "importPcapJob completion: invalidateConverters(updated) after publishing new indexes", p.Pos(fl.node(pt)), "called with FromPcap's updated mask on every path after the publish",
-					"new index files are published on a path that does not invalidate converter output for the streams FromPcap reported as updated (or passes another mask): a stream extended by a later capture keeps serving its old converter output: "+fl.traceString(res))
+				r.Check(!res.Found, ruleA, "importPcapJob completion: invalidateConverters(updated ∪ reset) after publishing new indexes", p.Pos(fl.node(pt)), "called with a mask that holds FromPcap's updated AND reset streams on every path after the publish",
+					"new index files are published on a path that does not invalidate converter output for every stream whose payload changed — the streams FromPcap reports as updated (extended) and as reset (rebuilt because earlier packets arrived): such a stream keeps serving the converter output of its old payload: "+fl.traceString(res))
 			}
 		}
 	}
